@@ -319,9 +319,9 @@ class JoinRandom(JoinBase):
             b = rng.random()
             mr, mq = min(lr, lr2), min(lq, lq2)
             if b < 0.2:            # exactly half the shorter one on the reference, anything on the query
-                rd = -(mr // 2) - rng.choice([0, 0, 1, -1]) * (1 if mr % 2 == 0 else 0); qd = rng.choice([rd, 0, rng.randrange(-mq // 2 - 2, mq + 5)])
+                rd = -(mr // 2) - rng.choice([0, 0, 1, -1]); qd = rng.choice([rd, 0, rng.randrange(-mq // 2 - 2, mq + 5)])
             elif b < 0.4:          # ... on the query
-                qd = -(mq // 2) - rng.choice([0, 0, 1, -1]) * (1 if mq % 2 == 0 else 0); rd = rng.choice([qd, 0, rng.randrange(-mr // 2 - 2, mr + 5)])
+                qd = -(mq // 2) - rng.choice([0, 0, 1, -1]); rd = rng.choice([qd, 0, rng.randrange(-mr // 2 - 2, mr + 5)])
             elif b < 0.55:         # contiguous or same-gap joins
                 rd = rng.choice([0, 0, rng.randrange(0, 5000)]); qd = rd
             else:
